@@ -2,6 +2,12 @@
 
 package gmtls
 
+import (
+	"bytes"
+	"net"
+	"time"
+)
+
 // Verification hooks (build tag "verif" only): the record protection layer
 // (halfConn.encrypt / halfConn.decrypt / incSeq) on a bare halfConn with
 // caller-chosen key material and sequence number, and the padding helpers
@@ -72,4 +78,66 @@ func VerifRoundUp(a, b int) int { return roundUp(a, b) }
 
 func VerifPadToBlockSize(payload []byte, bs int) (prefix, finalBlock []byte) {
 	return padToBlockSize(payload, bs)
+}
+
+// VerifNewHalfConnV is VerifNewHalfConn with a caller-chosen protocol version (e.g. VersionTLS10: CBC with
+// the implicit IV carried over from the previous record).
+func VerifNewHalfConnV(version uint16, suite uint16, key, macKey, iv []byte, isRead bool, seq []byte) *VerifHalfConn {
+	v := VerifNewHalfConn(suite, key, macKey, iv, isRead, seq)
+	v.hc.version = version
+	return v
+}
+
+// verifWire is the net.Conn under a hooked Conn: reads come from a fixed byte string (then io.EOF), writes are kept.
+type verifWire struct {
+	in  *bytes.Reader
+	out bytes.Buffer
+}
+
+func (w *verifWire) Read(p []byte) (int, error)         { return w.in.Read(p) }
+func (w *verifWire) Write(p []byte) (int, error)        { return w.out.Write(p) }
+func (w *verifWire) Close() error                       { return nil }
+func (w *verifWire) LocalAddr() net.Addr                { return nil }
+func (w *verifWire) RemoteAddr() net.Addr               { return nil }
+func (w *verifWire) SetDeadline(t time.Time) error      { return nil }
+func (w *verifWire) SetReadDeadline(t time.Time) error  { return nil }
+func (w *verifWire) SetWriteDeadline(t time.Time) error { return nil }
+
+// VerifReadRecords drives Conn.readRecord during the handshake phase on a bare Conn: protocol version vers
+// (haveVers says whether it counts as negotiated), the receiving half connection unprotected at sequence
+// number seq, a pending cipher spec for suite nextSuite (0 = none prepared) with the given keys, handBuf already
+// waiting in c.hand, and wire as everything the peer sends.  readRecord is called with wants[0], wants[1], ...
+// until one call returns an error.  Result: index of the failing call (-1 = none), c.hand, the sequence number,
+// whether the pending cipher spec was activated, and everything written to the connection (alerts, unprotected).
+func VerifReadRecords(isClient bool, vers uint16, haveVers bool, seq []byte, nextSuite uint16, key, macKey, iv []byte,
+	handBuf, wire []byte, wants []uint8) (failed int, hand []byte, seqOut []byte, switched bool, written []byte) {
+	w := &verifWire{in: bytes.NewReader(wire)}
+	c := &Conn{conn: w, isClient: isClient, vers: vers, haveVers: haveVers, config: &Config{}}
+	c.in.version = vers
+	c.out.version = vers
+	copy(c.in.seq[:], seq)
+	if nextSuite != 0 {
+		var ci interface{}
+		var m macFunction
+		switch nextSuite {
+		case GMTLS_ECC_SM4_CBC_SM3:
+			ci = cipherSM4(key, iv, true)
+			m = macSM3(vers, macKey)
+		case GMTLS_ECC_SM4_GCM_SM3:
+			ci = aeadSM4GCM(key, iv)
+		default:
+			panic("VerifReadRecords: unsupported suite")
+		}
+		c.in.prepareCipherSpec(vers, ci, m)
+	}
+	c.hand.Write(handBuf)
+	failed = -1
+	for i, want := range wants {
+		if err := c.readRecord(recordType(want)); err != nil {
+			failed = i
+			break
+		}
+	}
+	return failed, append([]byte{}, c.hand.Bytes()...), append([]byte{}, c.in.seq[:]...), c.in.cipher != nil,
+		append([]byte{}, w.out.Bytes()...)
 }
